@@ -235,18 +235,21 @@ func (h *Harness) minimise(t *testing.T, seed int64, tier string, class string, 
 					}
 				}
 			}
-			// 4. zero single values
+			// 4. zero single values, else make them smaller
 			for i := 0; i < len(best[k]) && runs < budget; i++ {
-				if best[k][i] == 0 {
-					continue
-				}
-				c := best
-				c[k] = append([]int(nil), best[k]...)
-				c[k][i] = 0
-				if ok, n := try(c); ok {
-					best = n
-					for j := range best {
-						best[j] = trimZeros(best[j])
+				for _, nv := range []int{0, best[k][i] / 2, best[k][i] - 1} {
+					if i >= len(best[k]) || nv >= best[k][i] || nv < 0 {
+						continue
+					}
+					c := best
+					c[k] = append([]int(nil), best[k]...)
+					c[k][i] = nv
+					if ok, n := try(c); ok {
+						best = n
+						for j := range best {
+							best[j] = trimZeros(best[j])
+						}
+						break
 					}
 				}
 			}
